@@ -124,16 +124,23 @@ Section Engine.
   Variable is_semi : tok -> bool.
   Variable is_label_for : list tok -> bool.   (* p.LabeledFor: `name:` followed by `for` *)
 
+  (* the inner loop at the top of InfixExpandArray's loop: skip empty statements *)
+  Fixpoint drop_semis (ts : list tok) : list tok :=
+    match ts with
+    | t :: r => if is_semi t then drop_semis r else ts
+    | [] => []
+    end.
+
   (* pratt.go: InfixExpandArray *)
   Fixpoint stmts (fuel : nat) (ts : list tok) {struct fuel} : res (list tree) :=
     match fuel with
     | O => RFuel
     | S f =>
-      match ts with
-      | [] => ROk []
-      | _ =>
-        if is_label_for ts then RUnsup else
-        bind (parse_one ts) (fun p =>
+      match drop_semis ts with
+      | [] => ROk []                                   (* if pr.IsEOF() { break } *)
+      | t1 :: r1 =>
+        if is_label_for (t1 :: r1) then RUnsup else
+        bind (parse_one (t1 :: r1)) (fun p =>
           let x := fst p in
           let keep := match x with Leaf t => negb (is_semi t) | _ => true end in
           let rest := match snd p with
@@ -178,6 +185,10 @@ Section Table.
 
   Definition in_names (n : string) (l : list string) : bool := existsb (String.eqb n) l.
 
+  (* if found { if op.MunchLeft == nil { return 0, nil }; return op.Bp, nil } *)
+  Definition found_bp (e : entry) : Z :=
+    match e_led e with LDrop => lbp_noled_val K | _ => e_bp e end.
+
   (* pratt.go: Zlisp.LeftBindingPower *)
   Definition lbp_of (t : tok) : option Z :=
     match t with
@@ -185,10 +196,10 @@ Section Table.
     | TBool _ => Some (lbp_bool K) | TStr _ => Some (lbp_str K)
     | TSym n _ =>
       if in_names n (lbp_zero_syms K) then Some (lbp_zero_val K)
-      else match lookup n with Some e => Some (e_bp e) | None => Some (lbp_sym_default K) end
+      else match lookup n with Some e => Some (found_bp e) | None => Some (lbp_sym_default K) end
     | TDotSym n =>
       if in_names n (lbp_zero_syms K) then Some (lbp_zero_val K)
-      else match lookup n with Some e => Some (e_bp e) | None => Some (lbp_dotsym K) end
+      else match lookup n with Some e => Some (found_bp e) | None => Some (lbp_dotsym K) end
     | TArr _ => Some (lbp_array K)
     | TComma => Some (lbp_comma K)
     | TSemi => Some (lbp_semicolon K)
